@@ -49,6 +49,25 @@ def _storage_names(fi: FuncInfo) -> set[str]:
     return out
 
 
+def _collection_annotation(ann) -> str | None:
+    """`Iterable[MoveType]`, `list[Move]`, `Sequence[CriteriaType]` … → kind of the elements"""
+    if ann is None:
+        return None
+    if isinstance(ann, ast.Constant) and isinstance(ann.value, str):
+        try:
+            ann = ast.parse(ann.value, mode="eval").body
+        except SyntaxError:
+            return None
+    if isinstance(ann, ast.Subscript) and norm(ann.value).split(".")[-1] in ("Iterable", "Iterator", "Sequence", "Collection", "list", "List", "tuple", "Tuple", "set", "Set", "frozenset"):
+        inner = ann.slice.elts[0] if isinstance(ann.slice, ast.Tuple) and ann.slice.elts else ann.slice
+        base = norm(inner).split("[")[0].strip("'\"")
+        if base in ("MoveType", "Move", "MoveProtocol"):
+            return "move"
+        if base in ("CriteriaType", "Criteria", "CriteriaProtocol"):
+            return "criteria"
+    return None
+
+
 def _is_storage_expr(e: ast.expr, storages: set[str], in_storage_class: bool) -> bool:
     if isinstance(e, ast.Name):
         return e.id in storages or (in_storage_class and e.id == "self")
@@ -87,13 +106,18 @@ def run(prog: Program, L: Ledger) -> None:
     # ------------------------------------------------------------------ P1
     n_uses = 0
     storage_cls = prog.cls("MoveStorage")
-    scope = [fi for fi in prog.iter_functions() if fi.module.name.startswith(f"{prog.package}.mc.") or fi.module.name == f"{prog.package}.utils.moves"]
+    comp_cls = prog.cls("CompositeMove")
+    # the drivers, the move table, and the composite move (whose children may be user moves as well); the composite's
+    # algebra (__add__/__mul__ …) works on package moves by documentation and is C17's subject, not part of this surface
+    scope = [fi for fi in prog.iter_functions() if fi.module.name.startswith(f"{prog.package}.mc.") or fi.module.name == f"{prog.package}.utils.moves"
+             or (fi.cls is comp_cls and fi.name in ("__call__", "on_atoms_changed", "on_cell_changed", "to_dict"))]
     from ..normalize import flat as _flat
 
     for fi0 in scope:
         # the normal form: private helpers inlined, generator helpers spliced into the loops that consume them
         fi = _flat(prog, fi0, fi0.cls)
         in_storage = fi.cls is storage_cls
+        in_composite = fi.cls is comp_cls  # the generic composite; the specialised ones are declared over package moves
         storages = _storage_names(fi)
         move_names, crit_names = set(), set()
         if fi.name == "add_move":
@@ -109,13 +133,12 @@ def run(prog: Program, L: Ledger) -> None:
                 move_names.add(a_.arg)
             elif base in ("CriteriaType", "Criteria", "CriteriaProtocol") and fi.name != "add_move":
                 crit_names.add(a_.arg)
-        # locals bound to <storage>.move / .criteria
-        for n in walk_no_nested(fi.node):
-            if isinstance(n, ast.Assign) and len(n.targets) == 1 and isinstance(n.targets[0], ast.Name) and isinstance(n.value, ast.Attribute):
-                if n.value.attr == "move" and _is_storage_expr(n.value.value, storages, in_storage):
-                    move_names.add(n.targets[0].id)
-                if n.value.attr == "criteria" and _is_storage_expr(n.value.value, storages, in_storage):
-                    crit_names.add(n.targets[0].id)
+        names = {"move": move_names, "criteria": crit_names}
+        colls: dict[str, set[str]] = {"move": set(), "criteria": set()}  # locals / parameters holding SEVERAL user objects
+        for a_ in fi.node.args.args + fi.node.args.kwonlyargs:
+            ck = _collection_annotation(a_.annotation)
+            if ck is not None:
+                colls[ck].add(a_.arg)
 
         def kind_of(e):
             if isinstance(e, ast.Name):
@@ -129,6 +152,51 @@ def run(prog: Program, L: Ledger) -> None:
                 if e.attr == "criteria":
                     return "criteria"
             return None
+
+        def coll_kind(e):
+            """kind of the elements of an iterable expression, if they are user objects"""
+            if isinstance(e, ast.Name):
+                for k_, s_ in colls.items():
+                    if e.id in s_:
+                        return k_
+            if in_composite and norm(e) == "self.moves":
+                return "move"
+            if isinstance(e, (ast.GeneratorExp, ast.ListComp, ast.SetComp)):
+                return kind_of(e.elt)
+            if isinstance(e, ast.Call) and isinstance(e.func, ast.Name) and e.func.id in ("list", "tuple", "sorted", "set", "reversed", "iter", "frozenset") and len(e.args) >= 1:
+                return coll_kind(e.args[0])
+            if isinstance(e, (ast.List, ast.Tuple, ast.Set)) and e.elts:
+                ks = {kind_of(x) for x in e.elts}
+                if len(ks) == 1:
+                    return next(iter(ks))
+            if isinstance(e, ast.Starred):
+                return coll_kind(e.value)
+            return None
+
+        # locals bound to <storage>.move / .criteria, to elements of collections of user objects, and the collections
+        # themselves (a small fixpoint: each round can only add names)
+        for _round in range(6):
+            before = (len(move_names), len(crit_names), len(colls["move"]), len(colls["criteria"]))
+            for n in walk_no_nested(fi.node):
+                if isinstance(n, (ast.Assign, ast.AnnAssign)) and n.value is not None:
+                    tg = n.targets[0] if isinstance(n, ast.Assign) and len(n.targets) == 1 else (n.target if isinstance(n, ast.AnnAssign) else None)
+                    if isinstance(tg, ast.Name):
+                        k_ = kind_of(n.value)
+                        if k_:
+                            names[k_].add(tg.id)
+                        ck = coll_kind(n.value)
+                        if ck:
+                            colls[ck].add(tg.id)
+                elif isinstance(n, (ast.For, ast.comprehension)) and isinstance(n.target, ast.Name):
+                    ck = coll_kind(n.iter)
+                    if ck:
+                        names[ck].add(n.target.id)
+                elif isinstance(n, ast.Call) and isinstance(n.func, ast.Attribute) and isinstance(n.func.value, ast.Name) and n.func.attr in ("append", "add", "insert", "extend") and n.args:
+                    k_ = coll_kind(n.args[-1]) if n.func.attr == "extend" else kind_of(n.args[-1])
+                    if k_:
+                        colls[k_].add(n.func.value.id)
+            if before == (len(move_names), len(crit_names), len(colls["move"]), len(colls["criteria"])):
+                break
 
         for n in walk_no_nested(fi.node):
             if isinstance(n, ast.Attribute):
